@@ -19,6 +19,10 @@ R = [
  ("r12_finish_match", "src/link_format.rs", [("    pub fn finish(self) -> Result<(), core::fmt::Error> {\n        if let Some(e) = self.error {\n            Err(e)\n        } else {\n            Ok(())\n        }", "    pub fn finish(self) -> Result<(), core::fmt::Error> {\n        match self.error {\n            None => Ok(()),\n            Some(e) => Err(e),\n        }")]),
  ("r13_set_version_mask_order", "src/header.rs", [("        let type_tkl = 0x3F & self.ver_type_tkl;\n        self.ver_type_tkl = v << 6 | type_tkl;", "        self.ver_type_tkl = (self.ver_type_tkl & 0x3F) | (v << 6);")]),
  ("r14_is_error_byte", "src/header.rs", [("        MessageClass::Response(*self)\n            >= MessageClass::Response(ResponseType::BadRequest)", "        u8::from(MessageClass::Response(*self)) >= 0x80")]),
+ ("r16_splice_range_payload_len", "src/block_handler/mod.rs", [("                    payload_offset..payload_offset + request_block1.size(),\n                    request.message.payload.iter().copied(),", "                    payload_offset\n                        ..payload_offset + request.message.payload.len(),\n                    request.message.payload.iter().copied(),")]),
+ ("r17_writer_matches", "src/link_format.rs", [("            if (c == '\"' || c == '\\\\') && self.0.error.is_none() {", "            if matches!(c, '\"' | '\\\\') && self.0.error.is_none() {")]),
+ ("r18_unquote_guard_arm", "src/link_format.rs", [("                    Some(QUOTE_ESCAPE_CHAR) => self.inner.next(),", "                    Some(c) if c == QUOTE_ESCAPE_CHAR => self.inner.next(),")]),
+ ("r19_scanner_while_let", "src/link_format.rs", [("                            Some(QUOTE_ESCAPE_CHAR) => {\n                                iter.next();\n                            }", "                            Some(QUOTE_ESCAPE_CHAR) => {\n                                let _skipped = iter.next();\n                            }")]),
  ("r15_block_value_u64_shift", "src/block_handler/block_value.rs", [("        let more = scalar >> 3 & 0x1 == 0x1;", "        let more = (scalar & 0x8) != 0;")]),
 ]
 os.makedirs(OUT, exist_ok=True)
